@@ -3,11 +3,22 @@
 //@ region regtoken_specs props=C20
 impl RegistrationToken {
     pub closed spec fn tok(self) -> TokenInner { self.inner }
+    pub closed spec fn of(t: TokenInner) -> RegistrationToken { RegistrationToken { inner: t } }
+    pub broadcast proof fn lemma_of(t: TokenInner)
+        ensures #[trigger] Self::of(t).tok() == t,
+    {}
+    pub proof fn lemma_of_tok(self)
+        ensures Self::of(self.tok()) == self,
+    {}
+}
+impl vstd::std_specs::cmp::PartialEqSpecImpl for RegistrationToken {
+    open spec fn obeys_eq_spec() -> bool { true }
+    open spec fn eq_spec(&self, other: &RegistrationToken) -> bool { *self == *other }
 }
 //@ endregion
 //@ open src/loop_logic.rs / impl RegistrationToken
 //@ item src/loop_logic.rs / impl RegistrationToken / fn new props=C20,C14 ret=r
 //@ spec
-        ensures r.tok() == inner,
+        ensures r.tok() == inner, r == Self::of(inner),
 //@ enditem
 //@ close
